@@ -1046,6 +1046,14 @@ M('C05', 'speigs: dtype passed as the column count of np.eye (original defect)',
 M('C03', 'ExactDiag.full_to_mps relabels its argument (original defect)', 'tenpy/algorithms/exact_diag.py',
   "        psi = psi.copy(deep=False)  # don't relabel the argument\n", "", 'OWN-param-icall')
 
+M('C10', 'dense/sparse exporters ignore explicit_plus_hc (original defect)', 'tenpy/algorithms/exact_diag.py',
+  """    if model.explicit_plus_hc:
+        # the model stores only one half of each hermitian pair of terms
+        H = H + H.conj().T
+    return H
+""", """    return H
+""", 'HCFLAG-model')
+
 # ---------------------------------------------------------------- C16 / C19
 M('C16', 'GMRES restart: relative residual norm used for normalisation (round-3 seed b)', KRY,
   """        self.total_error.append([npc.norm(self.rs[-1]) / self.b_norm])
